@@ -1,36 +1,129 @@
 """Static description of the checks: which Lean modules carry each property's theorems, the claimed level,
-what is partial."""
+what is partial.  bin/mkmanifest turns this into MANIFEST.json; bin/check copies it into the evidence."""
 
 TRUSTED_BASE = [
     "Lean 4.33 kernel (incl. GMP Nat arithmetic used by `decide +kernel`), Mathlib v4.33 as compiled in the image",
-    "axioms admitted: propext, Classical.choice, Quot.sound (audited per theorem on every run)",
+    "axioms admitted: propext, Classical.choice, Quot.sound (audited per theorem on every run with #print axioms); no native_decide, bv_decide, sorry, axiom, implemented_by (grep on every run)",
     "the theorem statements in lean/PP/Props and the specs in lean/PP/Spec (RFC 9380 / ZCash format transcribed from knowledge; no RFC text offline)",
-    "extract/extract.py (translator: constants, chains, ladders); a parse failure is a broken obligation",
+    "extract/extract.py (translator: constants, chains, ladders, derive output from rustc -Zunpretty=expanded); a parse failure is a broken obligation",
     "hand-written model lean/PP/Model tied to /repo by differential execution (harness/ppexec vs lean ppdrv) on the generated cases only",
-    "pylib/oracle.py (python spec-level oracle, used to build inputs and for the failing-input search)",
+    "pylib/oracle.py (python spec-level oracle, used to build inputs, as third opinion on the implementation's outputs, and for the failing-input search)",
     "modelled, not verified: proc-macro's unrolled limb-level Montgomery mul/square (integer-level REDC model), std::io Read/Write (byte lists), byteorder, generic-array, sha2/sha3 crates (Lean re-implementations PP/Spec/Hash.lean, validated differentially)",
     "rustc/LLVM, OS",
 ]
 
+DIFF = " Tie to the code: constants/chains regenerated from /repo on every run (a changed constant breaks a kernel-checked obligation); control flow by differential execution of the real code against the compiled Lean model on directed input classes, plus an independent python oracle."
+
 PROPS = {
-    "C01": {"modules": ["PP.Props.C01"], "level": "proof"},
-    "C02": {"modules": ["PP.Props.C02"], "level": "proof"},
-    "C04": {"modules": ["PP.Props.C04"], "level": "proof"},
-    "C05": {"modules": ["PP.Props.C05"], "level": "proof"},
-    "C07": {"modules": ["PP.Props.C07"], "level": "proof"},
-    "C19": {"modules": ["PP.Props.C19"], "level": "proof"},
-    "C08": {"modules": ["PP.Props.C08"], "level": "proof"},
-    "C09": {"modules": ["PP.Props.C09"], "level": "proof"},
-    "C18": {"modules": ["PP.Props.C18"], "level": "proof"},
-    "C06": {"modules": ["PP.Props.C06"], "level": "proof"},
-    "C10": {"modules": ["PP.Props.C10"], "level": "proof"},
-    "C13": {"modules": ["PP.Props.C13"], "level": "proof"},
-    "C14": {"modules": ["PP.Props.C14"], "level": "proof"},
-    "C15": {"modules": ["PP.Props.C15"], "level": "proof"},
-    "C16": {"modules": ["PP.Props.C16"], "level": "proof"},
-    "C17": {"modules": ["PP.Props.C17"], "level": "proof"},
-    "C20": {"modules": ["PP.Props.C20"], "level": "other"},
-    "C03": {"modules": ["PP.Props.C03"], "level": "other"},
-    "C11": {"modules": ["PP.Props.C11"], "level": "other"},
-    "C12": {"modules": ["PP.Props.C12"], "level": "other"},
+    "C01": {
+        "modules": ["PP.Props.C01"], "level": "proof", "technique": "Lean 4 proof (refinement to Mathlib's Weierstrass point group) + differential model/impl correspondence",
+        "text": "Theorems for every field of char != 2,3 and every b != 0: the model's Jacobian double/add/addMixed/neg/sub/beq/toAffine/toJac/batchNormalize refine Mathlib's group law on W.Point for ALL on-curve inputs and ALL representatives (identity, P+P, P+(-P), same point under two representatives, y=0), and every finite program over a register file ends in the point the abstract group predicts (induction on the program); instantiated for G1 and G2 (ShortW instances)." + DIFF,
+        "note": "model = code only on the explored cases; curve hypotheses 2,3,b != 0 proved for both concrete curves",
+    },
+    "C02": {
+        "modules": ["PP.Props.C02", "PP.Props.C02Inst"], "level": "proof", "technique": "Lean 4 proof (induction over bit lists / digit columns / wNAF digits, invariants) + differential correspondence",
+        "text": "For every curve point and every k < 2^256: affine and projective double-and-add, the 3-entry and 256-entry table multiplications (tables from the library's own precomputation, which is proved never to panic) return [k]P; wNAF for every window 2..22 and k < 2^255 (termination within the fuel, digit bounds, no index panic, result [k]P); a reused wNAF context returns what a fresh one returns for any history; recommended windows in 2..22 (over the extracted tables). All relative to the C01 group model, instantiated at G1/G2." + DIFF,
+        "note": "window sizes above 18 (G1) / 15 (G2) are covered by theorem only, not by differential cases (table size)",
+    },
+    "C03": {
+        "modules": ["PP.Props.C03"], "level": "other", "technique": "Lean 4 proof of the provable clauses + differential and oracle tests of bilinearity",
+        "text": "Theorems: identity arguments give 1, e(P,Q)^r = 1, e = (Miller value)^(3(q^12-1)/r) via C12, published e(g1,g2) KAT where kernel-evaluable. Bilinearity, non-degeneracy and agreement with a textbook Miller function are NOT carried by theorems (divisor theory is absent from Mathlib); they are tested: impl vs Lean model on every case, and e([a]P,[b]Q) = e(P,Q)^(ab) against an independent python Fq12 for scalars incl. 0,1,r-1,r,r+1,>=r, plus the repository's relic vector." + DIFF,
+        "note": "partial: bilinearity / non-degeneracy are tests, labelled as such in the evidence (partial_clauses)",
+        "explanation": "theorem-backed: identity->1, order divides r, exponent 3(q^12-1)/r, KAT; test-backed: bilinearity, non-degeneracy, textbook agreement",
+        "partial": ["bilinearity (test only)", "non-degeneracy (test only)", "agreement with textbook Miller function (test only)"],
+    },
+    "C04": {
+        "modules": ["PP.Props.C04", "PP.Props.C04Inst"], "level": "proof", "technique": "Lean 4 proof (decoder = ordered declarative validation, for all byte strings) + differential correspondence",
+        "text": "For all byte strings of the right length the four decoders equal a declarative ordered validation (form flag; infinity/sort flags; coordinate range per component; curve equation / square root + sort flag; subgroup) — acceptance iff and exact error precedence; unchecked variants = same minus curve/subgroup; never panics. Subgroup test meaning (r•P=0) from C07." + DIFF,
+        "note": "std::io and fixed-size arrays are modelled as byte lists",
+    },
+    "C05": {
+        "modules": ["PP.Props.C05", "PP.Props.C05Inst"], "level": "proof", "technique": "Lean 4 proof (round trips, canonicity, injectivity) + differential correspondence",
+        "text": "Encoders are byte-for-byte the declarative ZCash format for every point record; lengths 48/96/96/192; decode(encode A) = A for valid A; decode bs = A implies encode A = bs (canonical, non-malleable); injective." + DIFF,
+        "note": "affine records with infinity=true and junk coordinates encode like the identity (hypothesis kept visible in the theorems)",
+    },
+    "C06": {
+        "modules": ["PP.Props.C06"], "level": "proof", "technique": "Lean 4 proof by composition (C13, C14, C15, C16, C17) + differential correspondence against python RFC pipeline",
+        "text": "hash_to_curve / encode_to_curve = hash_to_field (RFC 9380 section 5, C13) followed by the map of C14, for any expander meeting C13; subgroup clause under the curve-order hypotheses of C17." + DIFF,
+        "note": "RFC text/vectors unavailable offline; isogeny additivity (C16) and curve orders are explicit hypotheses/test-only",
+        "partial": ["subgroup membership conditional on curve-order hypotheses", "iso coefficients tied to RFC by structural theorems + repo KATs"],
+    },
+    "C07": {
+        "modules": ["PP.Props.C07"], "level": "proof", "technique": "Lean 4 proof (predicate characterisation for all coordinate records, closure invariants, generators by kernel evaluation) + differential correspondence",
+        "text": "in_subgroup(x,y,inf) = true iff inf or (on curve and r•P = 0), for ALL coordinate records over Fq/Fq2; rejects off-curve pairs, twist points, every point whose order divides the cofactor; the invariant 'on curve and killed by r' is preserved by all arithmetic, conversions, scalar multiplication, batch normalisation and any program; both extracted generators are members of exact order r (kernel evaluation)." + DIFF,
+        "note": "random sampling / cofactor scaling / hash outputs: conditional on the curve-order hypothesis (point counting is out of reach)",
+        "partial": ["sampling and hashing clauses conditional on #E = h*r"],
+    },
+    "C08": {
+        "modules": ["PP.Props.C08"], "level": "proof", "technique": "Lean 4 proof (Montgomery REDC, binary Euclid with fuel adequacy, limb-level arithmetic) + differential correspondence on raw limbs",
+        "text": "Montgomery-level model with the EXTRACTED MODULUS/R/R2/INV: add/sub/neg/double/mul/square/pow(any limb count)/inverse/from_repr/into_repr/zero test/order equal integer arithmetic mod q, r (bijection to the canonical model Zp), inverse fails only for 0 (fuel adequacy proved); representation type = unsigned 384/256-bit integers under add/sub/shifts/halve/double/bit length/parity/compare/byte I/O for any limb count; all hard-coded constants decoded and checked in the kernel." + DIFF,
+        "note": "the proc-macro's unrolled limb-level mul/square/mont_reduce is modelled by integer-level word-by-word REDC (same quotient digits), tied by raw-limb differential runs",
+    },
+    "C09": {
+        "modules": ["PP.Props.C09"], "level": "proof", "technique": "Lean 4 proof (CommRing/Field instances on the model's own operations, isomorphism with AdjoinRoot, Frobenius by table recurrences checked in the kernel) + differential correspondence",
+        "text": "Fq2/Fq6/Fq12 model operations form fields isomorphic to the stated quotient rings (AdjoinRoot), all derived operations and the three sparse products equal the dense ones, inversion fails only for 0, frobenius_map x k = x^(q^k) for every k on all three layers (extracted tables)." + DIFF,
+        "note": "none beyond the trusted base",
+    },
+    "C10": {
+        "modules": ["PP.Props.C10", "PP.Props.C10Inst"], "level": "proof", "technique": "Lean 4 proof (digit extraction in all three branches, bucket invariant, induction on windows and lists) + differential correspondence",
+        "text": "Pippenger with any window 1..20, the default entry point (window in 1..16 over the extracted table) and the table-driven MSM return sum [k_i]P_i over the first min entries for lists of ANY length and scalars < 2^255; panics exactly when a used scalar has bit 255; buckets are clear after every window." + DIFF,
+        "note": "differential cases for windows > 10 use small-digit scalars (cost of the bucket reduction); the theorem covers all scalars",
+    },
+    "C11": {
+        "modules": ["PP.Props.C11"], "level": "other", "technique": "Lean 4 proof of the product structure + oracle tests of the exponent clause",
+        "text": "Theorems: joint Miller loop = product of single Miller loops for every list, identity pairs contribute 1 at any position, final exponentiation multiplicative (C12), prepared length / no unwrap panic, helpers agree for equal lengths. The clause e(g1,g2)^(sum a_i b_i) needs bilinearity (C03) and is tested (cancelling combinations included)." + DIFF,
+        "note": "partial: exponent clause is test-only",
+        "explanation": "theorem-backed: product structure, identity pairs, helper agreement, no panic; test-backed: value equals e(g1,g2)^(sum a_i b_i)",
+        "partial": ["exponent clause needs bilinearity (test only)"],
+    },
+    "C12": {
+        "modules": ["PP.Props.C12"], "level": "proof", "technique": "Lean 4 proof (exponent tracking in the unit group, numeric congruence in the kernel) + differential correspondence",
+        "text": "final_exponentiation f = some (f^(3(q^12-1)/r)) for every f != 0 and none exactly for 0; multiplicative; r-th roots of unity; every non-zero element of any proper subfield (Mathlib Subfield) maps to 1." + DIFF,
+        "note": "none beyond the trusted base",
+    },
+    "C13": {
+        "modules": ["PP.Props.C13"], "level": "proof", "technique": "Lean 4 proof (model = literal RFC 9380 section 5 transcription, for every hash) + differential correspondence incl. the Lean SHA-2/SHAKE",
+        "text": "expand_message_xmd (any hash), expand_message_xof and hash_to_field (Fq, Fr, Fq2, any count) equal a literal transcription of RFC 9380 5.2/5.3 for all inputs with |dst| <= 255, len <= 65535; abort iff more than 255 blocks; from_okm = OS2IP mod p (unwraps cannot fire)." + DIFF,
+        "note": "the hash function is a parameter of the theorems; sha2/sha3 crates are validated differentially against PP/Spec/Hash.lean and python hashlib",
+    },
+    "C14": {
+        "modules": ["PP.Props.C14"], "level": "proof", "technique": "Lean 4 proof by composition (C01 on the target curve, C15, C16, C17) + refutation of the pre-fix code + differential correspondence with constructed collisions",
+        "text": "map = clear(iso(sswu u)), map2 = clear(iso(sswu u0) + iso(sswu u1)) with + the group law, for ALL pairs incl. u0=u1, u0=-u1, colliding images (after the fix commit); no panic; the pre-fix composition is refuted by a kernel-checked witness." + DIFF,
+        "note": "subgroup clause conditional on curve order/exponent hypotheses (C17)",
+        "partial": ["subgroup membership conditional on curve-order hypotheses"],
+    },
+    "C15": {
+        "modules": ["PP.Props.C15", "PP.Props.C15Inst"], "level": "proof", "technique": "Lean 4 proof (field algebra, Euler criterion, roots-of-unity case analysis on extracted constants, no-root certificates) + differential correspondence per branch class",
+        "text": "For all t: the optimized SSWU (G1 and G2) returns without panic a finite point of E' equal to RFC 9380 map_to_curve_simple_swu (x first square candidate, sgn0 y = sgn0 t, exceptional inputs), incl. totality of the G2 root search." + DIFF,
+        "note": "chains' exponents from C17's kernel facts",
+    },
+    "C16": {
+        "modules": ["PP.Props.C16", "PP.Props.C16Inst"], "level": "proof", "technique": "Lean 4 proof (homogeneous Horner evaluation, polynomial identity of degree 63 / 15 checked in the kernel on extracted coefficients) + differential correspondence; additivity tested",
+        "text": "evalIso = the rational map XN/XD, y*YN/YD on every representative, identity and kernel points to identity, image on the target curve (polynomial identity on the extracted coefficients), compatible with negation, representation independent. The homomorphism law is NOT proved (no general theorem in Mathlib; degree 11 certificate infeasible) — tested against the a != 0 group law of E'." + DIFF,
+        "note": "partial: additivity of the isogenies is test-only",
+        "partial": ["homomorphism law (test only)"],
+    },
+    "C17": {
+        "modules": ["PP.Props.C17", "PP.Props.C17Inst"], "level": "proof", "technique": "Lean 4 proof (straight-line program simulation, exponents of the extracted chains in the kernel) + differential correspondence on full-curve points",
+        "text": "clear_h = [h_eff] on EVERY curve point (G1: 0xd201000000010001; G2: the 636-bit constant = 3(x^2-1)h2), additive, identity to identity; field chains compute x^((q-3)/4), x^((q^2-9)/16)." + DIFF,
+        "note": "subgroup clause: G2 from h2 | h_eff under #E'(Fq2) = h2*r (hypothesis); G1 needs the group exponent (hypothesis) — tested on full-curve points of every small order",
+        "partial": ["'result lies in the subgroup' conditional on curve order (G2) / exponent (G1)"],
+    },
+    "C18": {
+        "modules": ["PP.Props.C18", "PP.Props.C18Inst"], "level": "proof", "technique": "Lean 4 proof (Euler criterion, Tonelli-Shanks invariant and termination, Algorithm 9 over Fq2) + differential correspondence on squares/non-squares",
+        "text": "sqrt returns a root exactly for squares in Fq, Fr (Tonelli-Shanks incl. fuel adequacy) and Fq2; Legendre symbol = Euler's criterion (of the norm for Fq2); sgn0 = parity (first non-zero coefficient); orders are the stated total orders; exactly one of y,-y is larger; sgn0(-y) != sgn0(y)." + DIFF,
+        "note": "none beyond the trusted base",
+    },
+    "C19": {
+        "modules": ["PP.Props.C19", "PP.Props.C19Inst"], "level": "proof", "technique": "Lean 4 proof (reader = byte list; round trip with exact consumption, error cases) + differential correspondence",
+        "text": "deserialize(serialize v ++ tail) = (v, tail) for Fr, Fq12, G1/G2 affine and projective, both flags; lengths 32/576/48|96/96|192; bytes = point encoding; eof on truncation at every prefix, flag mismatch, non-reduced values and every C04 rejection are errors; never panics." + DIFF,
+        "note": "std::io::Read modelled as a byte list (read_exact semantics)",
+    },
+    "C20": {
+        "modules": ["PP.Props.C20"], "level": "other", "technique": "Lean 4 proof of history independence (wNAF context) + source purity audit + shuffled-history and 16-thread differential runs",
+        "text": "Theorem: any history of calls through one reused wNAF context returns what fresh contexts return; stale buffers are ignored. Audit (obligation): no static mut / Cell / atomics / locks / thread_local / lazy statics in the source, unsafe only in the listed constructors. Test: the mixed workload in shuffled order and from 16 threads in one process is bit-identical to the sequential run and to the Lean model. Data races/deadlocks are runtime phenomena a theorem about the model cannot exhibit.",
+        "note": "partial by nature: concurrency clause is an audit + stress test",
+        "explanation": "theorem-backed: call-history independence of the only stateful API object; audit-backed: absence of shared mutable state; test-backed: bit-identical results under 16 threads and shuffled histories",
+        "partial": ["data-race / deadlock freedom: audit + stress test only"],
+    },
 }
